@@ -294,7 +294,7 @@ theorem node_eq {z : Zone} {o n : LName} {t : Nat} (wf : WF z o) (hn : o <:+ n)
         have hsrc : sourceNode z (l :: rest) = some (star :: ce) := by
           simp [sourceNode, hex, hce, hwex]
         have hil : innerLookup z (l :: rest) t =
-            some { name := l :: rest, type := rr.type, rdatas := rr.rdatas } := by
+            some { name := l :: rest, type := rr.type, rdatas := rr.rdatas, sigLabels := rr.sigLabels } := by
           simp [innerLookup, hle, hscan, innerLookupWildcard, hws]
         have hsc := scan_eq wf (star :: ce) t
         rw [hscw] at hsc
@@ -309,7 +309,7 @@ theorem node_eq {z : Zone} {o n : LName} {t : Nat} (wf : WF z o) (hn : o <:+ n)
           have hrc : rr = c := by simpa using hsc
           subst hrc
           have hres : resolve z o (l :: rest) t =
-              .cname { name := l :: rest, type := rr.type, rdatas := rr.rdatas } tg := by
+              .cname { name := l :: rest, type := rr.type, rdatas := rr.rdatas, sigLabels := rr.sigLabels } tg := by
             simp only [resolve, hcuts, hsrc, hc, htg]
           rw [hres]
           exact ⟨hil, hct, htne, htg⟩
@@ -322,7 +322,7 @@ theorem node_eq {z : Zone} {o n : LName} {t : Nat} (wf : WF z o) (hn : o <:+ n)
             subst hrc
             obtain ⟨_, _, hrt⟩ := get_some (by rw [get_eq_rrsetAt]; exact hr)
             have hres : resolve z o (l :: rest) t =
-                .data { name := l :: rest, type := rr.type, rdatas := rr.rdatas } := by
+                .data { name := l :: rest, type := rr.type, rdatas := rr.rdatas, sigLabels := rr.sigLabels } := by
               simp only [resolve, hcuts, hsrc, hc, hr]
             rw [hres]
             exact ⟨hil, hrt⟩
